@@ -154,6 +154,10 @@ def run_fit(cfg: Dict[str, Any], seed: int, feats, criterion_fn) -> Dict[str, An
         optimizer = BoundSGD(owned(hedger, model, cfg))
     if cfg.get("pre_eval"):
         hedger.eval()              # history: the hedger was used for pricing before this fit()
+    if cfg.get("stale"):           # history: a loss was back-propagated by hand before this fit(); its gradient is still there
+        for p_ in hedger.parameters():
+            if not isinstance(p_, torch.nn.parameter.UninitializedParameter):
+                p_.grad = torch.full_like(p_, 0.5)
     vers.clear()
     ver()
     history = hedger.fit(deriv, hedge=hedger.verif_hedge, n_epochs=cfg["k"], n_paths=cfg["n"], n_times=cfg["ntimes"], optimizer=optimizer,
@@ -256,6 +260,44 @@ def real_primary_seeded(ctx: Ctx) -> None:
                           {"k": k, "n_times": ntimes, "validation": validation, "fit": hist, "loop": ref_hist})
 
 
+def refit(ctx: Ctx) -> None:
+    """Two consecutive fit() calls on ONE hedger with an optimiser CLASS: each call constructs its own optimiser, so a stateful
+    one (momentum) starts from scratch - the parameters equal two explicit loops, each with a newly constructed optimiser."""
+    from pfhedge.nn import EntropicRiskMeasure
+
+    class Momentum(torch.optim.SGD):
+        def __init__(self, params):
+            super().__init__(params, lr=2.0 ** -3, momentum=0.5)
+
+    for feats in (["moneyness", "time_to_maturity", "prev_hedge"], ["log_moneyness", "time_to_maturity", "volatility"]):
+        for k1, k2, validation in ((2, 2, False), (1, 3, True)):
+            cfg = {"k": k1, "n": 3, "ntimes": 1, "validation": validation, "optclass": True, "lazy": False, "init": "default", "pre_eval": False, "extra": False, "stale": False}
+            script = make_script(random.Random(ctx.seed * 7 + k1), 2 + (k1 + k2) * 2)
+            stock, deriv, model, hedger = build(cfg, script, [], feats, EntropicRiskMeasure(0.5))
+            hedger.fit(deriv, n_epochs=k1, n_paths=3, n_times=1, optimizer=Momentum, verbose=False, validation=validation)
+            hedger.fit(deriv, n_epochs=k2, n_paths=3, n_times=1, optimizer=Momentum, verbose=False, validation=validation)
+            got = [p.detach().clone() for p in hedger.parameters()]
+            stock2, deriv2, model2, ref = build(cfg, script, [], feats, EntropicRiskMeasure(0.5))
+            for k in (k1, k2):
+                opt = Momentum(model2.parameters())
+                for _ in range(k):
+                    ref.train()
+                    opt.zero_grad()
+                    deriv2.simulate(n_paths=3)
+                    ref.criterion(ref.compute_portfolio(deriv2), deriv2.payoff()).backward()
+                    opt.step()
+                    if validation:
+                        ref.eval()
+                        with torch.no_grad():
+                            deriv2.simulate(n_paths=3)
+                            ref.criterion(ref.compute_portfolio(deriv2), deriv2.payoff())
+            want = [p.detach().clone() for p in ref.parameters()]
+            ctx.count(json.dumps(["refit", feats, k1, k2, validation]), n=1)
+            if not all(torch.equal(a, b) for a, b in zip(got, want)):
+                ctx.violation("fit:refit-optimizer-state", "a second fit() with the same optimiser class does not start from a newly constructed optimiser (parameters differ from two explicit loops, "
+                              "each with its own optimiser)", {"features": feats, "epochs": [k1, k2], "validation": validation})
+
+
 def check(ctx: Ctx) -> None:
     warnings.filterwarnings("ignore")
     from pfhedge.nn import EntropicRiskMeasure, ExpectedShortfall
@@ -280,10 +322,15 @@ def check(ctx: Ctx) -> None:
 
     def oce():
         return OCE(lambda z: z - z.square() / 8)
+    # gradients already populated when fit() is entered (materialised models)
+    stale_cfgs = [{"k": k, "n": 2, "ntimes": 1, "validation": v, "optclass": oc, "lazy": False, "init": "default", "pre_eval": False, "extra": False, "stale": True}
+                  for k in (1, 2) for v in (True, False) for oc in (True, False)]
+    for c_ in cfgs + extra_cfgs + hedge_cfgs:
+        c_.setdefault("stale", False)
     traces = []
-    plan = [(i, cfg, i % len(setups)) for i, cfg in enumerate(cfgs + extra_cfgs + hedge_cfgs)]
+    plan = [(i, cfg, i % len(setups)) for i, cfg in enumerate(cfgs + extra_cfgs + hedge_cfgs + stale_cfgs)]
     if ctx.tier == "thorough":                    # every configuration with every feature set / criterion, not a rotation
-        plan = [(i * len(setups) + j, cfg, j) for i, cfg in enumerate(cfgs + extra_cfgs + hedge_cfgs) for j in range(len(setups))]
+        plan = [(i * len(setups) + j, cfg, j) for i, cfg in enumerate(cfgs + extra_cfgs + hedge_cfgs + stale_cfgs) for j in range(len(setups))]
     for i, cfg, si in plan:
         feats, crit = setups[si]
         if cfg["extra"]:
@@ -322,9 +369,10 @@ def check(ctx: Ctx) -> None:
     ctx.sample({"fit_trace": {"cfg": traces[5]["cfg"], "events": traces[5]["events"][:14]}})
     ctx.sample({"fit_trace": {"cfg": traces[-1]["cfg"], "events": traces[-1]["events"][:10]}})
     real_primary_seeded(ctx)
+    refit(ctx)
     # ---- binding demonstration (synthetic, independent of /repo): the canonical behaviour of the automaton is accepted,
     # and dropping ZeroGrad in the second epoch / validating in train mode / an extra optimiser step is rejected
-    cfg = {"k": 2, "n": 2, "ntimes": 2, "validation": True, "optclass": False, "lazy": False, "init": "default", "pre_eval": False, "extra": False}
+    cfg = {"k": 2, "n": 2, "ntimes": 2, "validation": True, "optclass": False, "lazy": False, "init": "default", "pre_eval": False, "extra": False, "stale": False}
     def canon() -> List[Dict[str, Any]]:
         ev: List[Dict[str, Any]] = []
         pv = 0
